@@ -354,3 +354,15 @@ def c18(run):
     run.validate("Trace_TxSort", trace)
     return finish(run, assumptions=["amounts are non-negative (compared as 8-byte big-endian strings)",
                                     "elements with equal sort keys may appear in any order (sort.Sort is not stable)"])
+
+
+# --------------------------------------------------------------------------- C16
+@prop("C16", "Trace_BlockCache")
+def c16(run):
+    run.build()
+    run.mc("MC_BlockCache", "MC_BlockCache.cfg")
+    cases = run.gen("MC_BlockCache", "Gen_BlockCache.cfg", env={"GEN_DEPTH": "4" if run.tier == "thorough" else "3"})
+    trace, _ = run.exec("C16", cases=cases)
+    run.validate("Trace_BlockCache", trace)
+    return finish(run, assumptions=["block / transaction hashes and serialisations are 'fresh' facts recomputed by the harness from the underlying wire message (wire.MsgBlock / wire.MsgTx)",
+                                    "object identity is observed as pointer identity of the returned wrappers / hash objects / byte slices"])
